@@ -720,6 +720,10 @@ qtreetbl_obj_t qtreetbl_find_nearest(qtreetbl_t *tbl, const void *name,
 
     qtreetbl_lock(tbl);
     qtreetbl_obj_t *obj, *lastobj;
+    if (tbl->root != NULL) {
+        // root has no parent, a link left from the time it had one is stale.
+        tbl->root->next = NULL;
+    }
     for (obj = lastobj = tbl->root; obj != NULL;) {
         int cmp = tbl->compare(name, namesize, obj->name, obj->namesize);
         if (cmp == 0) {
